@@ -124,9 +124,9 @@ where
     }
     let degree = 1 << degree_bits;
     let lookup_gadget = LogUpGadget {};
-    let preprocessed_width = opt_opened_preprocessed_local_targets
-        .as_ref()
-        .map_or(0, |p| p.len());
+    // The width is the AIR's, not the prover's: the AIR is evaluated symbolically on a layout of
+    // this width below, and `validate_proof_shape` compares the opened values against it.
+    let preprocessed_width = air.preprocessed_width();
 
     // Lookups are not supported for recursive single STARK verification: the AIR
     // is evaluated below with empty lookup contexts, which does not enforce any
